@@ -18,6 +18,9 @@ struct Registry {
 };
 static Registry R;
 
+// exception injection: the g_throw_at-th functor call of a parse throws; every value built so far must still be destroyed exactly once
+struct Boom {}; static long g_fcalls = 0, g_throw_at = -1;
+static void maybe_throw() { if (++g_fcalls == g_throw_at) throw Boom{}; }
 #ifdef MOVE_ONLY
 #define COPY_CTOR(V) V(const V&) = delete;
 #else
@@ -35,7 +38,7 @@ struct V {
     V& operator=(V&& o) noexcept { if (this != &o) { drop(); id = o.id; o.id = -1; } return *this; }
     ~V() { drop(); }
     void drop() { if (id >= 0) { R.destroyed[id]++; --R.live; id = -1; } }
-    static V make() { return V(make_t{}); }
+    static V make() { maybe_throw(); return V(make_t{}); }
 };
 static void take(V&& v) { if (v.id < 0) { ++R.moved_from_seen; return; } R.consumed[v.id]++; V local(std::move(v)); }
 static void look(const V& v) { if (v.id < 0) { ++R.moved_from_seen; return; } R.consumed[v.id]++; }
@@ -142,6 +145,27 @@ int main(int argc, char** argv) {
             ++g_checks;
             if (R.destroyed[id] != 1) { fail(in, "value " + std::to_string(id) + " destroyed " + std::to_string(R.destroyed[id]) + " times"); break; }
             if (R.consumed[id] > 1) { fail(in, "value " + std::to_string(id) + " handed to " + std::to_string(R.consumed[id]) + " functor calls"); break; }
+        }
+    }
+    // exception safety: for every input up to length 4 and every k, the k-th value creation throws out of parse()
+    for (const std::string& in : inputs) {
+        if (in.size() > 4) continue;
+        for (long k = 1; k <= 12; ++k) {
+            ++g_cases; R.reset(); g_fcalls = 0; g_throw_at = k; bool threw = false;
+            try {
+                std::ostringstream es;
+#ifdef CONTEXTUAL
+                int ctxv = 0; auto r = p.context_parse(ctxv, string_buffer(in.c_str()), es);
+#else
+                auto r = p.parse(string_buffer(in.c_str()), es);
+#endif
+                (void)r;
+            } catch (const Boom&) { threw = true; }
+            g_throw_at = -1;
+            if (!threw) break;   // fewer than k values are created for this input
+            ++g_checks; if (R.live != 0) fail(in, std::to_string(R.live) + " values alive after an exception thrown by the " + std::to_string(k) + "-th value creation left parse()");
+            ++g_checks; if (R.copies != 0) fail(in, "values were copied on the exception path");
+            for (int id = 0; id < R.next; ++id) { ++g_checks; if (R.destroyed[id] != 1) { fail(in, "value " + std::to_string(id) + " destroyed " + std::to_string(R.destroyed[id]) + " times after an exception (thrown by creation " + std::to_string(k) + ")"); break; } }
         }
     }
     run_handles(g_cases, g_checks, g_fail, g_first);
